@@ -8,7 +8,7 @@ from facts import norm, lit_value, call_name, short, subnodes, peel_ty, field_re
 from prov import Prov, has_field
 from mirq import MirQ
 from templates import field_coverage, global_state_holders, global_state_uses, inlined
-from c13 import guards_of, strip, pattern_variants, mir_blocks     # shape helpers shared by the two modules (defined in c13.py)
+from c13 import guards_of, strip, pattern_variants, mir_blocks, index_of     # shape helpers shared by the two modules (defined in c13.py)
 
 PR = "nitrogql_printer::"
 JSON_MOD = "nitrogql_printer::json_printer::"
@@ -191,6 +191,7 @@ def anchors(P):
     if len(cl) != 1:
         raise AnchorMissing("fragment closure (fn of %s called by both runtime printers, &SelectionSet -> names): %s" % (A.op_rt.crate, [c.path for c in cl]))
     A.closure = cl[0]
+    A.not_closure = lambda g: g.path != A.closure.path and g.path != A.ptjs.path    # kept alive: templates.inlined memoises on id(pred)
     A.closure_T = inlined(P, A.closure)
     # the traversal = the closure function and the same-crate functions it calls by a statically resolved path (nested `rec`, helpers)
     inl = []
@@ -312,6 +313,60 @@ def kind_tables(P, R):
     return out
 
 
+def _ast_patterns(node):
+    """`Enum::Variant` names of nitrogql_ast enum variants tested by patterns below `node`"""
+    out = set()
+    for x in subnodes(node) if node is not None else []:
+        if x.get("k") in ("TupleStruct", "PatExpr") or (x.get("k") == "Struct" and "rest" in x):
+            d = norm(x.get("ctor_of") or x.get("def") or "")
+            if d.startswith("nitrogql_ast::") and x.get("dk", "").startswith(("Ctor(Variant", "Variant")):
+                out.add("::".join(d.split("::")[-2:]))
+    return out
+
+
+def _writes(node, key):
+    return node is not None and any(x.get("k") == "MethodCall" and norm(x.get("callee")) in WRITER_KEY_METHODS and x["args"]
+                                    and lit_value(x["args"][0]) == key for x in subnodes(node))
+
+
+def _only_absent(pat):
+    """does the pattern match nothing but `None`"""
+    p = pat
+    while p.get("k") in ("Ref", "Deref", "Box"):
+        p = p["p"]
+    if p.get("k") == "Or":
+        return all(_only_absent(q) for q in p["ps"])
+    return norm(p.get("def") or p.get("ctor_of") or "").endswith("option::Option::None")
+
+
+def content_condition(g, key):
+    """for a guard around the write of `key`: the AST variants for which the key is left out (sorted list) — empty when the guard
+    only tests presence, or when every side of it writes the key"""
+    if g["kind"] == "arm":
+        arms = g["match"]["arms"]
+        writing = set().union(*[_ast_patterns(a["pat"]) for a in arms if _writes(a["body"], key)] or [set()])
+        out = set()
+        for a in arms:
+            if _writes(a["body"], key) or _only_absent(a["pat"]):
+                continue
+            mine = _ast_patterns(a["pat"])
+            if mine:
+                out |= mine
+            elif writing:
+                out.add("one of " + "/".join(sorted(writing)))
+        return sorted(out)
+    if g["kind"] == "cond":
+        pats = _ast_patterns(g["e"])
+        n = g.get("node") or {}
+        other = n.get("else") if g["truth"] else n.get("then")
+        return sorted(pats) if pats and not _writes(other, key) else []
+    if g["kind"] == "pat":
+        pats = _ast_patterns(g["pat"])
+        n = g.get("node") or {}
+        return sorted(pats) if pats and g["truth"] and not _writes(n.get("els"), key) else []
+    return []
+
+
 def r12b(P, R):
     tabs = kind_tables(P, R)
     seen = {}
@@ -366,6 +421,19 @@ def r12b(P, R):
                     "JSON key `%s` of `%s` is not computed from %s.%s anywhere in its block" % (key, kind, src[0], src[1]),
                     loc=fn.loc())
     R.floor("R12-b", "key->field sources", n, 30)
+    # inside the block of one node kind, whether a key is written may depend on the *presence* of the component (`if let Some`,
+    # `None => {}`), never on its content: a condition that tests a variant of an AST enum and leaves the key out on one side
+    # drops an element of the source document for some values
+    for fn, kind, keys, block in tabs:
+        for key, nodes in keys.items():
+            for node in nodes:
+                for g in guards_of(fn, index_of(fn, node), stop=block):
+                    why = content_condition(g, key)
+                    if why:
+                        R.violated("R12-b", "cond:%s.%s" % (kind, key),
+                                   "JSON key `%s` of `%s` is written by %s only when the value is not %s: an element that is present in the "
+                                   "source is left out of the document depending on its content (an optional key may only be absent when the "
+                                   "source has no such element)" % (key, kind, fn.path, why), loc=fn.loc())
     # child nodes are printed as they are: the receiver of a nested print_json is an AST value reached by field projection /
     # iteration (or a json_printer adapter around one), never the result of an AST helper that computes a different node
     sites = 0
@@ -498,7 +566,8 @@ def r12d(P, R):
                         "TS visitor %s does not reach %s (print_values path)" % (v.path, rt.path), loc=v.loc())
     # document assembly: [X] ++ closure, X first; closure from the closure function applied to X's selection set
     si = _param_of(C, SELSET)
-    for role, rt, adt, allowed in (("operation", op_rt, OPDEF, {"selection_set"}), ("fragment", fr_rt, FRDEF, {"selection_set", "name"})):
+    for role, rt0, adt, allowed in (("operation", op_rt, OPDEF, {"selection_set"}), ("fragment", fr_rt, FRDEF, {"selection_set", "name"})):
+        rt = inlined(P, rt0, pred=A.not_closure)        # a shared helper that assembles and prints the document is seen through
         pv = Prov(rt)
         acc = rt.nodes()
         me = pv.params.get(rt.params[_param_of(rt, adt)].get("local"))
